@@ -7,6 +7,8 @@ S_k      == <<<<"wake">>>>
 S_kk     == <<<<"wake", "wake">>>>
 S_k_k    == <<<<"wake">>, <<"wake">>>>
 S_k_sw   == <<<<"wake">>, <<"stop", "wakeup">>>>
+S_sk     == <<<<"stop", "wake">>>>
+S_s_k    == <<<<"stop">>, <<"wake">>>>
 PrintSched == (RecordHist /\ Done) =>
    PrintT(<<"SCHED", ToJson([scripts |-> Scripts, ndisp |-> 0, mode |-> Mode, need |-> Need, sched |-> sched, hist |-> hist, blocked |-> IF everBlocked THEN 1 ELSE 0])>>)
 ASSUME PrintT(<<"CFG", ToJson([scripts |-> Scripts, ndisp |-> 0, mode |-> Mode, need |-> Need])>>)
